@@ -13,6 +13,8 @@ KIN = "gbasis.integrals.kinetic_energy.KineticEnergyIntegral.construct_array_con
 
 
 def run(repo, R):
+    from .momfam import compose_state_rules as _csr
+    _csr(R, repo, ['gbasis/integrals/kinetic_energy.py', 'gbasis/integrals/_diff_operator_int.py', 'gbasis/integrals/_moment_int.py', 'gbasis/contractions.py', 'gbasis/spherical.py', 'gbasis/utils.py', 'gbasis/base.py', 'gbasis/base_one.py', 'gbasis/base_two_symm.py', 'gbasis/base_two_asymm.py', 'gbasis/base_four_symm.py'], "the property holds for every call, also after a shell's parameters were changed through its setters")
     R.rule("PITFALL", "no result buffer typed after an input, no real cast of a transformation, no unbuffered accumulation / first-occurrence scatter through np.unique")
     from ..pitfalls import report as _pitfalls
     _pitfalls(repo, R, ['gbasis.integrals.kinetic_energy', 'gbasis.integrals._diff_operator_int', 'gbasis.integrals._moment_int'], single_row_tables=True)
